@@ -37,6 +37,7 @@ inductive Instr where
   | removeScope
   | createClosure (tmpl : Nat)
   | prepareCall (x : String) (nargs : Nat)
+  | tailGuard (x : String) (skip : Nat)  -- TailGuardInstr (fix C09-02): opens a self tail call
   | pushLazy (e : Expr)
   | loopStart (loop : Nat)
   | label
@@ -242,9 +243,13 @@ def compile (isFn : Nat → Bool) (c : Ctx) : Expr → G (List Instr × Bool)
         | some fo => if fo.varargs then decide (fo.nargs ≤ args.length) else args.length == fo.nargs
         | none => true
       if arityOk then do
-        -- self tail call: arguments inline, re-enter at instruction 0
+        -- self tail call (fix C09-02): a guard that looks the name up first, the arguments inline,
+        -- re-entry at instruction 0; behind the jump the ordinary call the guard skips to when the
+        -- name no longer denotes the running function (`skip` = guard + operands + PrepareCall +
+        -- RemoveScope × (scopes+1) + Goto)
         let code ← compileCallArgs isFn { c with tail := false } f 0 args
-        pure (code ++ [.prepareCall h args.length] ++ List.replicate (c.scopes + 1) .removeScope ++ [.goto 0], c.tail)
+        pure ([.tailGuard h (code.length + c.scopes + 4)] ++ code ++ [.prepareCall h args.length] ++
+              List.replicate (c.scopes + 1) .removeScope ++ [.goto 0, .callExpr (.sym h) args], c.tail)
       else pure ([.callExpr (.sym h) args], c.tail)
     else pure ([.callExpr (.sym h) args], c.tail)
   | .call f args => pure ([.callExpr f args], c.tail)
